@@ -159,6 +159,10 @@ def check_cat(ctx, spec):
     V = lambda clause, obs, exp: ctx.violation(carrier, clause, spec, obs, exp, spec)  # noqa: E731
     t1 = build(pid1, 1)
     t2 = build(pid2, 2)
+    far = float(spec.get("far", 0.0))
+    if far:  # second tree far from the origin, first tree off the quarter lattice: single precision cannot represent the translation exactly
+        t1 = build(pid1, 1, shift=(0.3, 0.7, 0.1))
+        t2 = build(pid2, 2, shift=(far + 0.123, 2 * far + 0.456, -3 * far - 0.789))
     if placed:  # second tree given such that the junction nodes already coincide
         t2 = build(pid2, 2, shift=(t1.xyz()[node1].astype(np.float64) - t2.xyz()[node2].astype(np.float64)) + np.array([float(spec.get("gap", 0.0)), 0.0, 0.0]))
     o1, o2 = snapshot_tree(t1), snapshot_tree(t2)
@@ -226,7 +230,7 @@ def check_cat(ctx, spec):
             want = np.array([src[j] for j in want_b], dtype=np.float64)
             if col in "xyz":
                 want = want + delta["xyz".index(col)]
-            if len(want_b) and not np.allclose(got, want, rtol=0, atol=1e-6):
+            if len(want_b) and not np.allclose(got, want, rtol=0, atol=1e-6 + (4 * 1.2e-7 * 3 * far if col in "xyz" else 0.0)):
                 V(clause, f"{col} of second-tree nodes {want_b}: {got.tolist()}", f"{want.tolist()}" + (f" (translated by {delta.tolist()})" if col in "xyz" else ""))
         # --- edges
         got_e = {frozenset((lab[k], lab[p])) for k, p in enumerate(pids) if p != -1}
@@ -280,12 +284,15 @@ def run(ctx):
                     for translate in (True, False):
                         for placed in (False, True):
                             check_cat(lim, dict(pid1=p1, pid2=p2, node1=node1, node2=node2, translate=translate, coincident_input=placed))
+                        if translate and len(p1) <= 3 and len(p2) <= 3:
+                            for far in (1e3, 1e4):  # translation requested: the junction nodes coincide by construction, wherever the second tree lies
+                                check_cat(lim, dict(pid1=p1, pid2=p2, node1=node1, node2=node2, translate=True, coincident_input=False, far=far))
                         if not translate and len(p1) <= 3 and len(p2) <= 3:
                             for gap in (2e-3, 2.5e-4):  # close but NOT coincident junction nodes: linked, never merged
                                 check_cat(lim, dict(pid1=p1, pid2=p2, node1=node1, node2=node2, translate=False, coincident_input=True, gap=gap))
     ctx.rule(
         f"redirect_tree: every sorted parent table <= {nr} nodes x every new root x sort on/off; cat_tree: every pair (first <= {na} nodes, second <= {nb} nodes) x every junction pair x "
-        "translate on/off x second tree given apart / already coincident at the junction (so merge and plain link both occur in both modes) / 2e-3 and 2.5e-4 away from it (linked, not merged); two-step re-rooting histories (first re-root unsorted, so the root is not node 0). Exact quarter-lattice coordinates, distinct types and radii. "
+        "translate on/off x second tree given apart / already coincident at the junction (so merge and plain link both occur in both modes) / 2e-3 and 2.5e-4 away from it (linked, not merged) / second tree 1e3 and 1e4 away from the origin with translation requested (single-precision coordinates; positions compared up to 4 ulp there); two-step re-rooting histories (first re-root unsorted, so the root is not node 0). Exact quarter-lattice coordinates, distinct types and radii. "
         "Non-trivial (redirect) = new root differs from the old one",
         exhaustive=True,
     )
